@@ -3,7 +3,6 @@ package c02
 import (
 	"bytes"
 	"fmt"
-	"os"
 	"testing"
 
 	"pgregory.net/rapid"
@@ -97,11 +96,8 @@ func verifyCommitIndependently(c *types.Commit, vals *types.ValidatorSet, bid ty
 }
 
 func runPathCase(c PathCase, x *h.Ctx) {
-	dir, err := os.MkdirTemp("", "c02p-")
-	if err != nil {
-		panic(err)
-	}
-	defer os.RemoveAll(dir)
+	dir, doneDir := sim.TempDir("c02p-")
+	defer doneDir()
 	byz := make([]bool, len(c.Powers))
 	for _, i := range c.Byz {
 		byz[i] = true
